@@ -68,10 +68,11 @@ def c06(run: Run):
                     muts.append(data[:off + j] + b"\x01" + data[off + j + 1:])
             elif name in ("flags", "ftr_flags"):
                 cur = data[off + 1]
-                for val in (0, 1, 4):
+                for val in range(256):          # every value of the check-type byte (reserved bits included)
                     if val != cur:
                         muts.append(data[:off + 1] + bytes([val]) + data[off + 2:])
-                muts.append(data[:off] + b"\x01" + data[off + 1:])
+                for val in (1, 0x80, 0xFF):
+                    muts.append(data[:off] + bytes([val]) + data[off + 1:])
             elif "idx" in name or name.endswith(("_packed", "_unpacked")):
                 b0 = data[off]
                 for val in ((b0 & 0x80) | ((b0 + 1) & 0x7F), (b0 & 0x80) | ((b0 - 1) & 0x7F), b0 ^ 0x40):
@@ -84,6 +85,25 @@ def c06(run: Run):
             for mu in muts:
                 mu2 = core.refresh_crcs(mu, rec, nb)
                 run.add("xz in=%s" % mu2.hex(), oracle=must_reject, tag="c06:field:" + name.split("_", 1)[-1], field=name)
+    # index records that are individually wrong but keep the totals (swap, +k/-k)
+    multi = [f for f in xz_files(run, 80, lz2) if len(f["blocks"]) >= 2 and len(f["data"]) < 4000][:sizes(run.tier, 4, 30)]
+    for f in multi:
+        recs = f["rec"]["_records"]
+        variants = []
+        if recs[0] != recs[1]:
+            variants.append([recs[1], recs[0]] + recs[2:])
+        for k in (1, 4, 5):
+            if recs[1][1] >= k:
+                variants.append([(recs[0][0], recs[0][1] + k), (recs[1][0], recs[1][1] - k)] + recs[2:])
+            if recs[1][0] > k:
+                variants.append([(recs[0][0] + k, recs[0][1]), (recs[1][0] - k, recs[1][1])] + recs[2:])
+        run.add("xz in=%s" % f["data"].hex(), oracle=exp_ok_out(f["out"]), tag="c06:valid-multiblock")
+        for vr in variants:
+            d2 = core.build_xz(f["check"], f["blocks"], index_records=vr)
+
+            def must_reject2(res, meta, peak):
+                return None if v(res) == "err" else "index records disagree with the blocks (totals preserved) but the file was accepted"
+            run.add("xz in=%s" % d2.hex(), oracle=must_reject2, tag="c06:index-records")
     for f in none_files:
         data = f["data"]
         run.add("xz in=%s" % data.hex(), oracle=exp_ok_out(f["out"]), tag="c06:valid-nocheck")
@@ -239,6 +259,14 @@ def c08(run: Run):
                             return "consumed %s bytes, expected header %d + payload %d" % (used, hl, plen)
                         return None
                     run.add("lzma us=%s in=%s" % (us, data.hex()), oracle=exact, tag="c08:size=len")
+                elif n < L and m.get("cum"):
+                    # the format decides: the size falls on a symbol boundary (success with exactly the
+                    # first n bytes) or strictly inside a copy (a match that would overshoot: error)
+                    cum = set(int(x) for x in m["cum"].split(",") if x) | {0}
+                    if n in cum:
+                        run.add("lzma us=%s in=%s" % (us, data.hex()), oracle=exp_ok_out(m["out"][:n]), tag="c08:size<len:boundary")
+                    else:
+                        run.add("lzma us=%s in=%s" % (us, data.hex()), oracle=exp_err(), tag="c08:size<len:overshoot")
                 else:
                     run.add("lzma us=%s in=%s" % (us, data.hex()), oracle=size_rule(n),
                             tag="c08:size%s" % ("<len" if n < L else ">len"))
@@ -292,6 +320,13 @@ def ideal_window(ops, d):
 def c09(run: Run):
     rng = run.rng
     bad = core.gen_material("lzmabad", run.seed, sizes(run.tier, 150, 2500))
+    good_pool = [g for g in core.gen_material("lzma", run.seed + 9, 400) if g["eos"] and len(g["out"]) > 20]
+    # accumulating window (LZMA2)
+    for m in core.gen_material("lzma2bad", run.seed, sizes(run.tier, 60, 800)):
+        run.add("lzma2 in=%s" % m["payload"].hex(), oracle=exp_err(prefix_of=m["out"]), tag="c09:stream-accum")
+        blk = core.XzBlock(m["payload"], m["out"])
+        if rng.chance(1, 5):
+            run.add("xz in=%s" % core.build_xz(1, [blk]).hex(), oracle=exp_err(prefix_of=b""), tag="c09:accum-in-xz")
     for m in bad:
         d = m["dict"]
         run.count("dict:%d" % d)
@@ -312,7 +347,22 @@ def c09(run: Run):
                 return None
             run.add("rawlzma lc=%d lp=%d pb=%d dict=%d us=none ml=none ops=d:%s" % (m["lc"], m["lp"], m["pb"], d, m["payload"].hex()),
                     oracle=raw_err, tag="c09:raw-circ")
-        # the same symbols inside an LZMA2 chunk are not generated here (see lzma2bad below)
+            # the same decoder object reused: a valid stream first (fills the window), reset, then the bad one
+            goods = [g for g in good_pool if (g["lc"], g["lp"], g["pb"]) == (m["lc"], m["lp"], m["pb"]) and g["dict"] <= d] or None
+            g = rng.pick(goods) if goods else None
+            if g is None:
+                continue
+
+            def raw_hist(res, meta, peak, out=m["out"]):
+                toks = res.split(" ")
+                if len(toks) < 4 or not toks[3].startswith("err:"):
+                    return "out-of-window copy not rejected by a reused (reset) decoder: %s" % res[:120]
+                if not is_prefix_repr(toks[3].split(":", 2)[2], out):
+                    return "reused decoder fabricated bytes from an earlier stream's window"
+                return None
+            run.add("rawlzma lc=%d lp=%d pb=%d dict=%d us=none ml=none ops=d:%s;r;d:%s" % (
+                m["lc"], m["lp"], m["pb"], d, g["payload"].hex(), m["payload"].hex()),
+                oracle=raw_hist, tag="c09:raw-reuse")
     # operation-level: real windows vs model vs ideal semantics
     nseq = sizes(run.tier, 400, 6000)
     for i in range(nseq):
@@ -371,12 +421,17 @@ def c10(run: Run):
                         return "limit %d below the needed window %d but no error" % (ml, meta["need"])
                     if not is_prefix_repr(outfield(res), out):
                         return "wrong bytes delivered before the limit error"
-                if peak > 2 * ml + 7 * 1024 * 1024 + 6 * len(out) + 4 * meta["inlen"]:
-                    return "heap peak %d far above the memory limit %d" % (peak, ml)
+                if peak > 2 * min(ml, meta["need"] + 1) + 7 * 1024 * 1024 + 6 * len(out) + 4 * meta["inlen"]:
+                    return "heap peak %d out of proportion (limit %d, window needed %d)" % (peak, ml, meta["need"])
                 return None
             if d >= 4096:
                 data = lzma_file(m)
                 run.add("lzma us=hdr ml=%d in=%s" % (ml, data.hex()), oracle=oracle, tag="c10:oneshot", need=need, inlen=len(data))
+                if ml >= len(out) and rng.chance(1, 2):
+                    # the same stream under a header announcing a 1 GiB dictionary: the window needed is
+                    # still min(dict, produced) = produced, and nothing more may be allocated
+                    big = lzma_file(m, dict_field=2**30)
+                    run.add("lzma us=hdr ml=%d in=%s" % (ml, big.hex()), oracle=oracle, tag="c10:hugedict", need=len(out), inlen=len(big))
                 parts = chunkings(rng, len(data), 3)[-1]
 
                 def soracle(res, meta, peak, out=out, expect_ok=expect_ok, ml=ml):
@@ -451,6 +506,24 @@ def c11(run: Run):
                 run.add("lzma us=hdr rk=%s in=%s" % (rk, (data + trail).hex()), oracle=exp_err(), tag="c11:lzma-marker-trailing")
             else:
                 run.add("lzma us=hdr rk=%s in=%s" % (rk, data.hex()), oracle=used_is(len(data), m["out"]), tag="c11:lzma-marker")
+    for m in [x for x in mats if not x["eos"]][:sizes(run.tier, 25, 200)]:
+        trail = rng.bytes(rng.below(9) + 1)
+        L, P = len(m["out"]), len(m["payload"])
+
+        def hist_oracle(res, meta, peak, out=m["out"], P=P):
+            toks = res.split(" ")
+            want = "ok:%d:%s" % (P, out_repr(out))
+            if len(toks) < 3 or toks[-1] != want:
+                return "size-bounded raw decode after reset(Some(size)) did not stop exactly at the payload end: %s (wanted %s)" % (res[:100], want[:60])
+            return None
+        run.add("rawlzma lc=%d lp=%d pb=%d dict=%d us=none ml=none ops=rs:%d;d:%s" % (
+            m["lc"], m["lp"], m["pb"], m["dict"], L, (m["payload"] + trail).hex()), oracle=hist_oracle, tag="c11:raw-reset-size")
+    for m in [x for x in mats if x["eos"]][:sizes(run.tier, 25, 200)]:
+        trail = rng.bytes(rng.below(9) + 1)
+        run.add("rawlzma lc=%d lp=%d pb=%d dict=%d us=%d ml=none ops=rs:none;d:%s" % (
+            m["lc"], m["lp"], m["pb"], m["dict"], len(m["out"]) + 3, (m["payload"] + trail).hex()),
+            oracle=lambda res, meta, peak: None if res.split(" ")[-1].startswith("err:") else
+            "marker-terminated raw decode (size cleared by reset) accepted trailing bytes: %s" % res[:100], tag="c11:raw-reset-marker")
     for m in lz2:
         trail = rng.pick([b"", b"\x00", rng.bytes(rng.below(64) + 1)])
         rk = rng.pick(rks)
@@ -656,24 +729,34 @@ def c13(run: Run):
 def c14(run: Run):
     rng = run.rng
     groups = []
-    # raw LZMA: pools of payloads sharing lc/lp/pb
+    # raw LZMA: pools of payloads sharing lc/lp/pb (the generator emits lc3/lp0/pb2 for a quarter of its material)
+    allm = [m for m in core.gen_material("lzma", run.seed * 7 + 1, sizes(run.tier, 300, 1500)) if len(m["payload"]) < 3000]
+    allbad = core.gen_material("lzmabad", run.seed * 7 + 2, sizes(run.tier, 200, 800))
+    byprops = {}
+    for m in allm:
+        byprops.setdefault((m["lc"], m["lp"], m["pb"]), []).append(m)
+    keys = [k for k, v in byprops.items() if len(v) >= 3] or list(byprops)
     for i in range(sizes(run.tier, 25, 300)):
-        lc, lp, pb = rng.pick([(3, 0, 2), (0, 0, 0), (8, 4, 4), (1, 2, 3), (4, 0, 0)])
+        lc, lp, pb = rng.pick(keys)
+        same = byprops[(lc, lp, pb)]
+        d = rng.pick([1, 2, 3, 7, 4096, 65536])
+        valid = [m for m in same if m["dict"] <= d] or same
         pool = []
-        mats = [m for m in core.gen_material("lzma", run.seed * 7 + i, 40) if (m["lc"], m["lp"], m["pb"]) == (lc, lp, pb)]
-        # material has random props: re-encode by asking for streams with these props is not possible here,
-        # so take any material and decode it with ITS props; the decoder under test is created per group
-        mats = core.gen_material("lzma", run.seed * 7 + i, 12)
-        m0 = mats[0]
-        lc, lp, pb, d = m0["lc"], m0["lp"], m0["pb"], max(m0["dict"], 1)
-        same = [m for m in mats if (m["lc"], m["lp"], m["pb"]) == (lc, lp, pb)] or [m0]
-        for m in mats[:8]:
+        for m in [rng.pick(valid) for _ in range(4)]:
             pay = m["payload"]
             pool.append(pay)
             if len(pay) > 6:
                 pool.append(pay[:rng.below(len(pay) - 5) + 5])
                 p = rng.below(len(pay) - 5) + 5
                 pool.append(pay[:p] + bytes([pay[p] ^ 0x55]) + pay[p + 1:])
+                pool.append(pay[:5])
+        # streams with one out-of-window copy (a stale window / stale rep registers would accept them)
+        pool += [b["payload"] for b in allbad if (b["lc"], b["lp"], b["pb"]) == (lc, lp, pb) and b["dict"] == d][:4]
+        # the empty stream with end marker (adapts models, leaves rep0 = 0xFFFFFFFF, produces nothing)
+        pool.append(bytes.fromhex("0083fffbffffc0000000"))
+        # payloads followed by bytes that do not belong to them
+        pool += [q + rng.pick([b"\x00", b"\x01\x02", rng.bytes(7)]) for q in pool[:3]]
+        m0 = rng.pick(valid)
         us0 = rng.pick(["none", str(len(m0["out"])), "0", "5"])
         ops = []
         probes = []
@@ -681,9 +764,7 @@ def c14(run: Run):
         for j in range(rng.pick([2, 4, 6, 10])):
             ops.append("d:" + rng.pick(pool).hex())
             k = rng.below(3)
-            if k == 0:
-                ops.append("r")
-            elif k == 1:
+            if k == 1:
                 cur_us = rng.pick(["none", "3", str(len(m0["out"]))])
                 ops.append("rs:" + cur_us)
             else:
